@@ -7,7 +7,8 @@ import DmrVerif.Model.Hdap
 `verify_checksum` runs), `Hrnp.fromBytes` / `Hrnp.asBytes` / `Hrnp.len` the three methods.
 `self.checksum` always holds the checksum *computed* over the object's own serialisation;
 `checksum_correct` says whether the value handed to the constructor equals it, and `from_bytes`
-overwrites it with the verdict on the received octets (commit 4e51d6f).
+overwrites it with the verdict on the received octets (commit 4e51d6f) and the cross-check of the
+announced length with the length the carried HDAP message states (repair of the length octets).
 Core Lean only.
 -/
 
@@ -30,6 +31,11 @@ def fold16 (c : Nat) : Nat := fold16Go c c
 
 /-- the check value of `verify_checksum`: `~fold(sum of words) & 0xFFFF` -/
 def hrnpCheck (checked : Bytes) : Nat := 0xFFFF - fold16 (words16 checked).sum
+
+/-- `pdu.get_endianness() == "little"`: only `RadioControlProtocol` overrides it -/
+def Pdu.little : Pdu → Bool
+  | .rcp _ => true
+  | _ => false
 
 structure Hrnp where
   header : Bytes
@@ -86,7 +92,16 @@ def Hrnp.fromBytes (d : Bytes) : R Hrnp := do
   let q ← Hrnp.init inner opcode source destination block (ofBe (sl d 6 8)) (ofBe (sl d 10 12)) (sl d 0 1) (sl d 1 2)
   -- the verdict on a received packet is about the received octets:
   -- `calculate_checksum(data[0:10] + data[12:len]) == data[10:12]` (two byte strings)
-  pure { q with checksumCorrect := be2 (hrnpCheck (sl d 0 10 ++ sl d 12 plen)) == sl d 10 12 }
+  let sumOk := be2 (hrnpCheck (sl d 0 10 ++ sl d 12 plen)) == sl d 10 12
+  -- … and, for a DATA packet, the announced length must be the one the carried HDAP message accounts
+  -- for: `hrnp_packet_len == 12 + 7 + int.from_bytes(data[15:17], hrnp.data.get_endianness())`
+  -- (`isinstance(hrnp.data, HDAP)` fails for `None`; with opcode DATA that raised `TypeError` above)
+  let lenOk := if opcode = hrnpDATA then
+      (match inner with
+       | some p => plen == 12 + 7 + (if p.little then ofLe (sl d 15 17) else ofBe (sl d 15 17))
+       | none => false)
+    else true
+  pure { q with checksumCorrect := sumOk && lenOk }
 
 def Hrnp.len (q : Hrnp) : R Nat := hrnpLen q.opcode q.data
 
